@@ -335,14 +335,15 @@ func genRRSIG(r *vlib.R, now int64) (string, string) {
 			}
 		case 9:
 			s.sig.pre["exp"] = fmt.Sprint(s.sig.exp)
-			s.sig.exp = now - int64(2+r.Intn(1000))
+			s.sig.exp = now - lapse(r)
 			b.tag("expired-rewritten")
 		case 10:
-			s.sig.exp = now - int64(2+r.Intn(100000))
+			// a genuine signature that lapsed a moment, minutes, hours or months ago (a replayed old answer)
+			s.sig.exp = now - lapse(r)
 			s.sig.inc = s.sig.exp - 86400
 			b.tag("expired-resigned")
 		case 11:
-			s.sig.inc = now + int64(3+r.Intn(100000))
+			s.sig.inc = now + 1 + lapse(r)
 			s.sig.exp = s.sig.inc + 86400
 			b.tag("notyet-resigned")
 		case 12:
@@ -433,6 +434,20 @@ func genRRSIG(r *vlib.R, now int64) (string, string) {
 	rc := b.c.realize(0)
 	b.c.tv = b.c.truthTable(rc)
 	return b.c.opLine(), strings.Join(b.tags, ",")
+}
+
+// lapse: how far outside its window a signature is — every magnitude from seconds to months, with the
+// round numbers a "skew allowance" would use (the wall clock keeps us 2 s away from the edge itself).
+func lapse(r *vlib.R) int64 {
+	switch r.Intn(4) {
+	case 0:
+		return int64(2 + r.Intn(28))
+	case 1:
+		return vlib.Pick(r, []int64{30, 59, 61, 90, 119, 121, 240, 299, 301, 360, 599, 601, 899, 901, 1800, 3599, 3601, 7200})
+	case 2:
+		return int64(2 + r.Intn(4000))
+	}
+	return int64(3600 + r.Intn(90*86400))
 }
 
 // ------------------------------------------------------------------ ValidateSigner cases
